@@ -98,6 +98,7 @@ func (s *segment) removeGTE(i uint64) error {
 	if n < s.n {
 		s.setOffset(n, 0)
 		s.n, s.size, s.synced = n, s.offset(n+1), -1
+		verifPoint("segment.removeGTE.headerLowered")
 	}
 	return s.sync()
 }
@@ -111,10 +112,12 @@ func (s *segment) sync() error {
 		if err := s.file.Sync(); err != nil {
 			return err
 		}
+		verifPoint("segment.sync.dataFlushed")
 		s.setOffset(s.n, 0)
 		if err := s.file.Sync(); err != nil {
 			return err
 		}
+		verifPoint("segment.sync.headerFlushed")
 		s.synced = s.n
 	}
 	return nil
